@@ -1,0 +1,72 @@
+//! C24 — path selection (`BiasedRttPathSelector::select`).
+//!
+//! Builds a synthetic [`PathSelectionContext`] (the same shape the crate's own unit
+//! tests use, through the guarded `verif_new` constructors) and runs the default selector.
+use std::{
+    net::{Ipv4Addr, Ipv6Addr, SocketAddr, SocketAddrV4, SocketAddrV6},
+    time::Duration,
+};
+
+use iroh_base::{CustomAddr, EndpointId, RelayUrl};
+use noq::PathStats;
+
+use crate::socket::{
+    biased_rtt_path_selector::{BiasedRttPathSelector, VERIF_CONSTS},
+    remote_map::{PathSelectionContext, PathSelectionData, PathSelector},
+    transports::{Addr, FourTuple},
+};
+
+/// `(kind, id)`: kind 0 = IPv4, 1 = IPv6, 2 = relay, k >= 3 = custom transport with id k.
+pub type AddrSpec = (u64, u16);
+
+/// `(IPV6_RTT_ADVANTAGE, RTT_SWITCHING_MIN)` in nanoseconds, as compiled.
+pub fn consts() -> (u128, u128) {
+    (VERIF_CONSTS.0.as_nanos(), VERIF_CONSTS.1.as_nanos())
+}
+
+fn four_tuple((kind, id): AddrSpec) -> FourTuple {
+    let addr = match kind {
+        0 => Addr::Ip(SocketAddr::V4(SocketAddrV4::new(Ipv4Addr::LOCALHOST, id))),
+        1 => Addr::Ip(SocketAddr::V6(SocketAddrV6::new(Ipv6Addr::LOCALHOST, id, 0, 0))),
+        2 => Addr::Relay(
+            format!("https://relay{id}.iroh.computer")
+                .parse::<RelayUrl>()
+                .unwrap(),
+            EndpointId::from_bytes(&[0u8; 32]).unwrap(),
+        ),
+        k => Addr::Custom(CustomAddr::from_parts(k, &id.to_be_bytes())),
+    };
+    FourTuple::from_remote(addr)
+}
+
+/// Runs `BiasedRttPathSelector::default().select` on the given paths (in the given order;
+/// `None` stats = unreadable) and current selection; returns the selected address.
+pub fn select_default(
+    current: Option<AddrSpec>,
+    paths: &[(AddrSpec, Option<Duration>)],
+) -> Option<AddrSpec> {
+    let mut specs: Vec<AddrSpec> = paths.iter().map(|p| p.0).collect();
+    if let Some(c) = current {
+        specs.push(c);
+    }
+    let tuples: Vec<FourTuple> = specs.iter().map(|s| four_tuple(*s)).collect();
+    let data: Vec<PathSelectionData<'_>> = paths
+        .iter()
+        .enumerate()
+        .map(|(i, (_, rtt))| {
+            let stats = rtt.map(|rtt| {
+                let mut s = PathStats::default();
+                s.rtt = rtt;
+                s
+            });
+            PathSelectionData::verif_new(&tuples[i], stats)
+        })
+        .collect();
+    let cur = current.map(|_| &tuples[paths.len()]);
+    let ctx = PathSelectionContext::verif_new(cur, data);
+    let sel = BiasedRttPathSelector::default().select(&ctx);
+    sel.selected().map(|t| {
+        let i = tuples.iter().position(|u| u == t).expect("selected path is not one of the inputs");
+        specs[i]
+    })
+}
